@@ -7,7 +7,8 @@
    more and no theorem carries an exception for a finding. *)
 From Coq Require Import List Arith ZArith NArith Bool Lia String.
 Import ListNotations.
-Require Import FV.Base.Util FV.Gen.C17 FV.C17.Model FV.C17.Lemmas FV.C17.LemmasSeq FV.C17.LemmasLink FV.C17.Counter.
+Require Import FV.Base.Util FV.Gen.C17 FV.C17.Model FV.C17.Lemmas FV.C17.LemmasSeq FV.C17.LemmasLink FV.C17.Counter
+  FV.C17.ConcModel FV.C17.ConcLemmas FV.C17.ConcCounter.
 
 (* obligations on the facts regenerated from /repo (Gen/C17.v): the code has the shape the model assumes *)
 Theorem C17_source_facts :
@@ -23,7 +24,8 @@ Theorem C17_source_facts :
   array_import_checks_kind_and_length = true /\ tuple_import_checks_kind_and_length = true /\
   struct_import_admits_missing_optional = true /\ struct_export_admits_missing_optional = true /\
   scaled_import_integers_only = true /\
-  blob_import_strict_base64 = true.
+  blob_import_strict_base64 = true /\
+  callbacks_called_inside_update_lock = true /\ update_lock_is_reentrant_lock = true.
 Proof. repeat split; reflexivity. Qed.
 
 (* one save, any fault at any file-system operation: the stored file afterwards (that is also: at the crash point)
@@ -52,6 +54,45 @@ Theorem C17_crash_atomic_all_points : forall data n d k,
   let d' := fs_run data n (firstn k (save_ops n)) d in
   target d' = target d \/ target d' = Some (CW data n n).
 Proof. intros data n d k. apply save_all_points. Qed.
+
+(* several threads assigning parameters of ONE module at the same time (ConcModel.v: the callbacks, saveParameters
+   among them, run inside updateLock - obligation callbacks_called_inside_update_lock of C17_source_facts).
+   For ALL modules, thread programs and schedules, at every point of the run (every prefix of a schedule is a
+   schedule): (1) the file-system operations made so far are complete saves one after the other, followed by the
+   first j operations of the one save in progress, which exists exactly when the lock is held: the operation
+   sequences of different saves never interleave; (2) the disk is a crash point of ONE save applied to a disk whose
+   stored file is the initial one or a complete document - the situation of C17_crash_atomic_all_points; hence
+   (3) the stored file is the one the threads started with or a complete document *)
+Theorem C17_concurrent_saves_serialised : forall M d m progs sch,
+  let st := crun true M sch (cinit d m progs) in
+  (exists blocks (cur : option (nat * nat * nat)),
+     c_ev st = flat_map blk blocks ++
+               match cur with Some (i, n, j) => map (pair i) (firstn j (save_ops n)) | None => [] end /\
+     (cur = None <-> c_lock st = None)) /\
+  (exists data n j dprev,
+     c_disk st = fs_run data n (firstn j (save_ops n)) dprev /\
+     (target dprev = target d \/ exists data' n', target dprev = Some (CW data' n' n'))) /\
+  (target (c_disk st) = target d \/ exists data n, target (c_disk st) = Some (CW data n n)).
+Proof.
+  intros M d m progs sch st.
+  assert (H : Inv (target d) st) by (apply inv_run, inv_init).
+  split; [|split].
+  - exact (inv_events _ _ H).
+  - exact (inv_disk _ _ H).
+  - exact (inv_target _ _ H).
+Qed.
+
+(* what the lock is needed for (hypothetical: the same system WITHOUT the lock; not a defect of /repo): two threads,
+   one shared temporary file name - a schedule after which the stored file is EMPTY (thread 1 truncated the
+   temporary file thread 0 then renamed), so that a start-up finds no entry; with the lock the same schedule leaves
+   the complete document of thread 0 *)
+Theorem C17_unlocked_saves_leave_empty_file :
+  (exists old, target (dk w0) = Some (CW old 4 4)) /\
+  (exists st data, wfinal false = Some st /\ target (c_disk st) = Some (CW data 0 4) /\
+                   parse (CW data 0 4) = PJInvalid /\ load_file wM (c_disk st) = LOk [] []) /\
+  (exists st data, wfinal true = Some st /\ target (c_disk st) = Some (CW data 4 4) /\
+                   aget 0 data = Some (VInt 5%Z)).
+Proof. exact unlocked_saves_leave_empty_file. Qed.
 
 (* the same for ANY sequence of the modelled operations that passes the check seq_safe (the stored file is touched
    by renames only, and only when the temporary file holds the complete new document): every prefix is safe.
@@ -225,6 +266,8 @@ Proof. vm_compute. repeat split; reflexivity. Qed.
 Print Assumptions C17_source_facts.
 Print Assumptions C17_crash_atomic_save.
 Print Assumptions C17_crash_atomic_all_points.
+Print Assumptions C17_concurrent_saves_serialised.
+Print Assumptions C17_unlocked_saves_leave_empty_file.
 Print Assumptions C17_crash_atomic_any_sequence.
 Print Assumptions C17_save_ops_safe.
 Print Assumptions C17_fault_free_save_is_save_ops.
